@@ -45,10 +45,19 @@ type CheckCtx struct {
 	Stats   *Stats
 	Samples []string
 	Extra   map[string]interface{}
+	Escalate int
 }
 
 func (cx *CheckCtx) N(quick, thorough int) int {
 	if cx.Tier == "thorough" {
+		return thorough
+	}
+	// escalated quick tier: a function of /repo changed against the baseline, or the syntactic
+	// tie of the registry no longer checks -> search harder
+	if cx.Escalate > 1 && quick*cx.Escalate < thorough {
+		return quick * cx.Escalate
+	}
+	if cx.Escalate > 1 {
 		return thorough
 	}
 	return quick
@@ -141,6 +150,7 @@ func cmdCheck(args []string) int {
 	known := fs.String("known", "/verif/known_findings.json", "known findings")
 	failedObl := fs.String("failed-obligations", "", "comma separated names of proof obligations that failed")
 	corpus := fs.String("corpus", "/verif/corpus", "corpus directory")
+	escalate := fs.Int("escalate", 1, "multiply the quick budgets (set by bin/check when /repo's functions changed)")
 	if len(args) < 1 {
 		return 2
 	}
@@ -152,7 +162,7 @@ func cmdCheck(args []string) int {
 		return 2
 	}
 	start := time.Now()
-	cx := &CheckCtx{Prop: prop, Tier: *tier, Seed: *seed, R: NewRng(*seed ^ hashStr(prop)), Stats: &Stats{Outcomes: map[string]int{}}, Extra: map[string]interface{}{}}
+	cx := &CheckCtx{Prop: prop, Tier: *tier, Seed: *seed, R: NewRng(*seed ^ hashStr(prop)), Stats: &Stats{Outcomes: map[string]int{}}, Extra: map[string]interface{}{}, Escalate: *escalate}
 
 	var cases []*Case
 	// corpus first
